@@ -58,6 +58,10 @@ False alarms corrected (the check, not dask, was wrong):
   and only when no key is duplicated on BOTH sides: for a many-to-many key pandas' own row order is an
   artefact of its join kernel and differs between the whole frame and a partition of it (thorough run:
   ``on=<index name>``, how=inner, last partition came back as 16,16,..,19,19,..,16,16 from pandas itself).
+  how=inner is left out of the order facet altogether: pandas 3.0.5 alone returns
+  ``p.merge(R, on=<index name>, how="inner")`` of a sorted ``p`` as 52,52,55,55,82,58,79 (second thorough
+  run), so "preserves the order of the left keys" does not hold for a partition although it held for the
+  whole frame.  left / right / outer (documented: left order / right order / sorted keys) stay in.
 * the shared classifier keys on the word "index" and called a wrong value in a key column an index
   difference for column merges (``check_index=False``); the symptom is now derived by comparing
   again without the index (and without names).
@@ -638,6 +642,12 @@ def _merge_pred(case, f):
             return "null-fill-upcast-decided-per-partition"
         if exc is not None and form in ("ci", "ic") and kd == "dt" and "Cannot cast DatetimeIndex" in str(exc):
             return "column-index&datetime-key&how-keeps-index-side-rows"
+        if exc is not None and type(exc).__name__ == "AssertionError" and f.get("broadcast-join") and case["npart"] is not None \
+                and case.get("_bj") and case["npart"] not in case["_bj"][:2]:
+            # Merge._lower repartitions the non-broadcast side with Repartition(new_partitions=npartitions); on known
+            # divisions with few distinct index values the lowered Repartition has fewer partitions than the abstract
+            # one announces (DESIGN 6 #23, C41's subject); compute()'s final repartition then trips over the count
+            return "broadcast-join&npartitions-arg&repartition-announces-more-partitions-than-it-makes"
         if exc is not None and case.get("chain") and f.get("broadcast-join") and "Missing dependency" in str(exc):
             # the second merge trusts Merge._npartitions / the claimed partitioning of the broadcast join
             return "broadcast-join-then-merge-on-same-key"
@@ -737,7 +747,7 @@ def _run_merge(case, ctx):
         return
     f = _merge_features(case, L, R, lddf, rddf, plan, kw)
     both_index = bool(kw.get("left_index") and kw.get("right_index")) or form == "oi"
-    ordered = "sorted-by-index" if (both_index and f["known-l"] and f["known-r"] and how != "leftsemi"
+    ordered = "sorted-by-index" if (both_index and f["known-l"] and f["known-r"] and how in ("left", "right", "outer")
                                     and f["many-to-many"] is False) else False
     ctx.count("merge_compared")
     ctx.count("merge_how_" + how)
@@ -1172,6 +1182,9 @@ PENDING = {
     # labels that remain after the proposed fixes (fixes_ready/C39_01..05): listed in known_findings.d/C39.json
     "merge:broadcast-join&how!=inner&non-broadcast-side-joined-on-index:ValueError@dataframe/backends.py:hash_object_pandas":
         "BroadcastJoin splits the non-broadcast side on left_on/right_on, which is None for left_index/right_index",
+    "merge:broadcast-join&npartitions-arg&repartition-announces-more-partitions-than-it-makes:AssertionError@dataframe/dask_expr/_repartition.py:_partitions_boundaries":
+        "Repartition(new_partitions=n) on known divisions with few distinct values lowers to fewer partitions than announced; "
+        "compute() of the broadcast join asserts (repartition defect reached through merge(npartitions=))",
     "merge:right-operand-is-pandas&left_index&right_on:rows":
         "pandas right operand is turned into an index join: right_on column of left-only rows is NaN, pandas fills the key",
     "merge:null-fill-upcast-decided-per-partition:dtype":
